@@ -1,16 +1,22 @@
 use autosar_data::*;
+use autosar_data_specification::*;
 fn main() {
-    let hdr = "<?xml version=\"1.0\" encoding=\"utf-8\"?>\n<AUTOSAR xsi:schemaLocation=\"http://autosar.org/schema/r4.0 AUTOSAR_00050.xsd\" xmlns=\"http://autosar.org/schema/r4.0\" xmlns:xsi=\"http://www.w3.org/2001/XMLSchema-instance\">";
-    let a = format!("{hdr}<AR-PACKAGES><AR-PACKAGE><SHORT-NAME>p</SHORT-NAME><DESC><L-2 L=\"EN\">x <SUB>a</SUB> y</L-2></DESC></AR-PACKAGE></AR-PACKAGES></AUTOSAR>");
-    let b = format!("{hdr}<AR-PACKAGES><AR-PACKAGE><SHORT-NAME>p</SHORT-NAME><DESC><L-2 L=\"EN\">x <SUP>b</SUP> y</L-2></DESC></AR-PACKAGE></AR-PACKAGES></AUTOSAR>");
-    let m = AutosarModel::new();
-    let (fa, _) = m.load_buffer(a.as_bytes(), "a.arxml", true).unwrap();
-    match m.load_buffer(b.as_bytes(), "b.arxml", true) {
-        Ok((fb, _)) => {
-            println!("merged ok");
-            println!("A: {}", fa.serialize().unwrap().replace('\n', ""));
-            println!("B: {}", fb.serialize().unwrap().replace('\n', ""));
+    let walk = vh::specwalk::SpecWalk::new();
+    for info in &walk.types {
+        if let Some((_, name, _)) = info.via {
+            if name == ElementName::DataPrototypeIref {
+                let t = info.etype;
+                let mask = vh::genmodel::path_versions(&walk, t);
+                println!("type mode={:?} path_mask={mask:x} path={}", t.content_mode(), walk.path_to(t).iter().map(|(_, n, m)| format!("{n}:{m:x}")).collect::<Vec<_>>().join("/"));
+                for v in [AutosarVersion::Autosar_00053, AutosarVersion::Autosar_00049] {
+                    let (model, _f) = vh::genmodel::model_for_version(v);
+                    let mut k = 0;
+                    match vh::genmodel::build_to(&model, &walk, t, &mut k) {
+                        Ok(e) => println!("{v:?}: built {} ; allowed: {:?}", e.xml_path(), e.list_valid_sub_elements().iter().map(|i| (i.element_name.to_string(), i.is_allowed)).collect::<Vec<_>>()),
+                        Err(e) => println!("{v:?}: build failed {e}"),
+                    }
+                }
+            }
         }
-        Err(e) => println!("second load: {e}"),
     }
 }
